@@ -534,7 +534,7 @@ func CheckC05(c *core.Ctx) int {
 		Coverage: map[string]any{
 			"states": g.Distinct, "transitions": g.States, "traces_validated_against_impl": vo.traces, "samples": samples,
 			"evaluations": len(all), "distinct_nontrivial": nontriv,
-			"rule": fmt.Sprintf("TLC enumerates flavour (6) x subscribed topic x message class record (5 message types, class fields of GossipCrash.tla) x byte-level class (8) x receiver state (3) with at most %d deviations from the flavour's canonical valid delivery and checks on every outcome the code-shaped layer allows that it neither panics nor hangs; every class combination is made concrete (real BLS / ECDSA objects, real envelope bytes; byte-level classes %d times with bytes from VERIF_SEED) and delivered to the real node assembly of the flavour: combined topic validator, then P2PMessaging.Handle on accept, under recover and a %v watchdog; %d deliveries are repeated single-threaded with a runtime.MemStats.TotalAlloc delta. evaluations = byte strings delivered; distinct_nontrivial = distinct (class combination, repetition); every line is validated by GossipCrashTrace (pass A monitors, pass B: the observed (verdict, handling) is one the code-shaped layer allows). This is structure-aware enumeration with seeded concretisation, not coverage-guided fuzzing.", maxDev, reps, Watchdog, len(ads)),
+			"rule":       fmt.Sprintf("TLC enumerates flavour (6) x subscribed topic x message class record (5 message types, class fields of GossipCrash.tla) x byte-level class (8) x receiver state (3) with at most %d deviations from the flavour's canonical valid delivery and checks on every outcome the code-shaped layer allows that it neither panics nor hangs; every class combination is made concrete (real BLS / ECDSA objects, real envelope bytes; byte-level classes %d times with bytes from VERIF_SEED) and delivered to the real node assembly of the flavour: combined topic validator, then P2PMessaging.Handle on accept, under recover and a %v watchdog; %d deliveries are repeated single-threaded with a runtime.MemStats.TotalAlloc delta. evaluations = byte strings delivered; distinct_nontrivial = distinct (class combination, repetition); every line is validated by GossipCrashTrace (pass A monitors, pass B: the observed (verdict, handling) is one the code-shaped layer allows). This is structure-aware enumeration with seeded concretisation, not coverage-guided fuzzing.", maxDev, reps, Watchdog, len(ads)),
 			"tlc_wall_s": g.Wall, "replay_s": replayS, "alloc_pass_s": allocS, "validate_s": vo.wall, "class_combinations": len(g.Cases),
 			"repetitions_per_byte_class": reps, "max_deviations": maxDev, "outcome_histogram": hist, "accepted_per_flavour": perFl,
 			"alloc_bound_kib": fmt.Sprintf("%d + %d*len", allocBaseK, allocPerByteK), "max_alloc_observed_kib": maxAlloc,
